@@ -3,8 +3,11 @@ package main
 import (
 	goruntime "runtime"
 	"context"
+	"encoding/json"
 	"fmt"
 	"net/http"
+	"reflect"
+	"strconv"
 	"net/http/httptest"
 	"sort"
 	"strings"
@@ -36,6 +39,7 @@ import (
 	"k8s.io/apimachinery/pkg/runtime"
 	"k8s.io/apimachinery/pkg/watch"
 	"k8s.io/client-go/kubernetes"
+	"k8s.io/client-go/kubernetes/scheme"
 	"k8s.io/client-go/rest"
 )
 
@@ -499,7 +503,8 @@ func runC20(c *Ctx) {
 				continue
 			}
 			for _, k := range kinds {
-				typedListFailure(c, pkg, k, c.Seed*77+int64(i))
+				typedListFailure(c, pkg, k, c.Seed*77+int64(i), false)
+				typedListFailure(c, pkg, k, c.Seed*77+int64(i), true)
 			}
 		}
 	}
@@ -513,6 +518,30 @@ func runC20(c *Ctx) {
 
 type restReq struct{ path, query string }
 
+// restFrame is one line of a watch stream of the loopback server.
+type restFrame struct {
+	version int
+	json    string
+}
+
+// frameOf encodes a watch frame the way an API server does: the object carries
+// its kind and apiVersion.
+func frameOf(typ string, o *Obj) restFrame {
+	obj := o.Go().(runtime.Object)
+	gvks, _, err := scheme.Scheme.ObjectKinds(obj)
+	if err != nil || len(gvks) == 0 {
+		panic(fmt.Sprint("frameOf: no kind for ", o.Kind, ": ", err))
+	}
+	obj.GetObjectKind().SetGroupVersionKind(gvks[0])
+	body, err := json.Marshal(obj)
+	if err != nil {
+		panic(err)
+	}
+	var v int
+	fmt.Sscan(o.RV, &v)
+	return restFrame{version: v, json: fmt.Sprintf(`{"type":%q,"object":%s}`, typ, body)}
+}
+
 func head2(l [][2]int) [][2]int {
 	if len(l) > 3 {
 		return l[:3]
@@ -523,6 +552,7 @@ func head2(l [][2]int) [][2]int {
 func restCheck(c *Ctx) {
 	var mu sync.Mutex
 	var reqs []restReq
+	var frames []restFrame
 	srv := httptest.NewServer(http.HandlerFunc(func(w http.ResponseWriter, r *http.Request) {
 		mu.Lock()
 		reqs = append(reqs, restReq{r.URL.Path, r.URL.RawQuery})
@@ -537,7 +567,35 @@ func restCheck(c *Ctx) {
 				return
 			}
 			w.WriteHeader(200)
-			return
+			w.(http.Flusher).Flush()
+			// an open stream: after a little latency, the frames of the current
+			// scenario that are newer than the resume version, as they come,
+			// until the client goes away
+			from, _ := strconv.Atoi(r.URL.Query().Get("resourceVersion"))
+			next := 0
+			for {
+				select {
+				case <-r.Context().Done():
+					return
+				case <-time.After(20 * time.Millisecond):
+				}
+				mu.Lock()
+				var out []restFrame
+				if next < len(frames) {
+					out = append(out, frames[next:]...)
+					next = len(frames)
+				}
+				mu.Unlock()
+				for _, f := range out {
+					if f.version <= from {
+						continue
+					}
+					if _, err := fmt.Fprintln(w, f.json); err != nil {
+						return
+					}
+					w.(http.Flusher).Flush()
+				}
+			}
 		}
 		fmt.Fprint(w, `{"kind":"List","apiVersion":"v1","metadata":{"resourceVersion":"1"},"items":[]}`)
 	}))
@@ -554,20 +612,21 @@ func restCheck(c *Ctx) {
 		res    string
 		namespaced bool
 		mkc    ctlMaker
+		kind   int
 	}
 	table := []ent{
-		{"pod", tpod.NewClient, "/api/v1", "pods", true, ctlOps(tpod.NewController)},
-		{"service", tservice.NewClient, "/api/v1", "services", true, ctlOps(tservice.NewController)},
-		{"secret", tsecret.NewClient, "/api/v1", "secrets", true, ctlOps(tsecret.NewController)},
-		{"node", tnode.NewClient, "/api/v1", "nodes", true, ctlOps(tnode.NewController)},
-		{"event", tevent.NewClient, "/api/v1", "events", true, ctlOps(tevent.NewController)},
-		{"replicationcontroller", treplicationcontroller.NewClient, "/api/v1", "replicationcontrollers", true, ctlOps(treplicationcontroller.NewController)},
-		{"ingress", tingress.NewClient, "/apis/networking.k8s.io/v1beta1", "ingresses", true, ctlOps(tingress.NewController)},
-		{"job", tjob.NewClient, "/apis/batch/v1", "jobs", true, ctlOps(tjob.NewController)},
-		{"daemonset", tdaemonset.NewClient, "/apis/apps/v1", "daemonsets", true, ctlOps(tdaemonset.NewController)},
-		{"deployment", tdeployment.NewClient, "/apis/apps/v1", "deployments", true, ctlOps(tdeployment.NewController)},
-		{"replicaset", treplicaset.NewClient, "/apis/apps/v1", "replicasets", true, ctlOps(treplicaset.NewController)},
-		{"statefulset", tstatefulset.NewClient, "/apis/apps/v1", "statefulsets", true, ctlOps(tstatefulset.NewController)},
+		{"pod", tpod.NewClient, "/api/v1", "pods", true, ctlOps(tpod.NewController), KPod},
+		{"service", tservice.NewClient, "/api/v1", "services", true, ctlOps(tservice.NewController), KService},
+		{"secret", tsecret.NewClient, "/api/v1", "secrets", true, ctlOps(tsecret.NewController), KSecret},
+		{"node", tnode.NewClient, "/api/v1", "nodes", true, ctlOps(tnode.NewController), KNode},
+		{"event", tevent.NewClient, "/api/v1", "events", true, ctlOps(tevent.NewController), KEvent},
+		{"replicationcontroller", treplicationcontroller.NewClient, "/api/v1", "replicationcontrollers", true, ctlOps(treplicationcontroller.NewController), KRC},
+		{"ingress", tingress.NewClient, "/apis/networking.k8s.io/v1beta1", "ingresses", true, ctlOps(tingress.NewController), KIngress},
+		{"job", tjob.NewClient, "/apis/batch/v1", "jobs", true, ctlOps(tjob.NewController), KJob},
+		{"daemonset", tdaemonset.NewClient, "/apis/apps/v1", "daemonsets", true, ctlOps(tdaemonset.NewController), KDaemonSet},
+		{"deployment", tdeployment.NewClient, "/apis/apps/v1", "deployments", true, ctlOps(tdeployment.NewController), KDeployment},
+		{"replicaset", treplicaset.NewClient, "/apis/apps/v1", "replicasets", true, ctlOps(treplicaset.NewController), KRS},
+		{"statefulset", tstatefulset.NewClient, "/apis/apps/v1", "statefulsets", true, ctlOps(tstatefulset.NewController), KStatefulSet},
 	}
 	var rows []string
 	for _, e := range table {
@@ -621,7 +680,7 @@ func restCheck(c *Ctx) {
 				reqs = nil
 				mu.Unlock()
 				cctx, ccancel := context.WithCancel(context.Background())
-				ready, done, closeFn, err := e.mkc(cctx, qlog.Silent(), cs, ns)
+				ready, done, closeFn, content, err := e.mkc(cctx, qlog.Silent(), cs, ns)
 				if err != nil {
 					c.Violation("", fmt.Sprintf("types/%s NewController (namespace %q) failed: %v", e.name, ns, err), map[string]interface{}{"package": e.name, "namespace": ns})
 				} else {
@@ -643,6 +702,43 @@ func restCheck(c *Ctx) {
 					if len(creqs) < 2 || creqs[0].path != wantList || creqs[1].path != wantWatch || !strings.Contains(creqs[1].query, "resourceVersion=1") {
 						c.Violation("", fmt.Sprintf("types/%s NewController (namespace %q) issued %v, expected a list of %s and then a watch of %s from version 1", e.name, ns, creqs, wantList, wantWatch),
 							map[string]interface{}{"package": e.name, "namespace": ns, "requests": fmt.Sprint(creqs)})
+					}
+					// changes reported on the open stream reach the typed cache: with the
+					// default refresh period (a minute) nothing but the watch can bring them
+					{
+						ons := 1
+						mu.Lock()
+						frames = nil
+						mu.Unlock()
+						push := func(typ string, nm, rv int) {
+							f := frameOf(typ, &Obj{ID: 100 + rv, Kind: e.kind, NS: ons, NM: nm, RV: fmt.Sprint(rv)})
+							mu.Lock()
+							frames = append(frames, f)
+							mu.Unlock()
+						}
+						push("ADDED", 1, 2)
+						push("MODIFIED", 1, 3)
+						time.Sleep(300 * time.Millisecond)
+						push("ADDED", 2, 4)
+						push("DELETED", 1, 5)
+						want := []string{Str(2) + "@4"}
+						var got []string
+						var cerr error
+						for k := 0; k < 300; k++ {
+							got, cerr = content()
+							if cerr != nil || fmt.Sprint(got) == fmt.Sprint(want) {
+								break
+							}
+							time.Sleep(20 * time.Millisecond)
+						}
+						if cerr != nil || fmt.Sprint(got) != fmt.Sprint(want) {
+							c.Violation("", fmt.Sprintf("types/%s NewController (namespace %q): four changes reported on the open watch stream, the typed cache reads %v (error %v), expected %v", e.name, ns, got, cerr, want),
+								map[string]interface{}{"package": e.name, "namespace": ns, "cache": fmt.Sprint(got), "expected": fmt.Sprint(want)})
+						}
+						mu.Lock()
+						frames = nil
+						mu.Unlock()
+						c.Rep.Evaluations++
 					}
 					closeFn()
 					select {
@@ -686,7 +782,7 @@ func restCheck(c *Ctx) {
 	}
 }
 
-type ctlMaker func(ctx context.Context, log logutil.Log, cs kubernetes.Interface, ns string) (ready, done <-chan struct{}, closeFn func(), err error)
+type ctlMaker func(ctx context.Context, log logutil.Log, cs kubernetes.Interface, ns string) (ready, done <-chan struct{}, closeFn func(), content func() ([]string, error), err error)
 
 // ctlOps adapts the NewController of a typed package (each returns its own Controller type).
 func ctlOps[C interface {
@@ -694,11 +790,27 @@ func ctlOps[C interface {
 	Done() <-chan struct{}
 	Close()
 }](f func(context.Context, logutil.Log, kubernetes.Interface, string) (C, error)) ctlMaker {
-	return func(ctx context.Context, log logutil.Log, cs kubernetes.Interface, ns string) (<-chan struct{}, <-chan struct{}, func(), error) {
+	return func(ctx context.Context, log logutil.Log, cs kubernetes.Interface, ns string) (<-chan struct{}, <-chan struct{}, func(), func() ([]string, error), error) {
 		c, err := f(ctx, log, cs, ns)
 		if err != nil {
-			return nil, nil, nil, err
+			return nil, nil, nil, nil, err
 		}
-		return c.Ready(), c.Done(), c.Close, nil
+		// the typed cache through reflection (every package has its own types):
+		// Cache().List() as sorted "name@resourceVersion"
+		content := func() ([]string, error) {
+			cache := reflect.ValueOf(c).MethodByName("Cache").Call(nil)[0]
+			out := cache.MethodByName("List").Call(nil)
+			if !out[1].IsNil() {
+				return nil, out[1].Interface().(error)
+			}
+			var names []string
+			for i := 0; i < out[0].Len(); i++ {
+				o := out[0].Index(i).Interface().(metav1.Object)
+				names = append(names, o.GetName()+"@"+o.GetResourceVersion())
+			}
+			sort.Strings(names)
+			return names, nil
+		}
+		return c.Ready(), c.Done(), c.Close, content, nil
 	}
 }
